@@ -31,14 +31,15 @@ def main():
         tier = sys.argv[sys.argv.index("--tier") + 1]
     if "--props" in sys.argv:
         props = sys.argv[sys.argv.index("--props") + 1].split(",")
+    suffix = sys.argv[sys.argv.index("--suffix") + 1] if "--suffix" in sys.argv else ""
     patch = os.path.join(outdir, which + ".diff")
     demo = os.path.join(outdir, which + "_demo_test.go")
-    wt = "/var/tmp/seedcheck-%s-%s" % (prop, which)
+    wt = "/var/tmp/seedcheck-%s%s-%s" % (prop, suffix, which)
     sh("git -C /repo worktree remove --force %s" % wt)
     rc, o = sh("git -C /repo worktree add --detach %s HEAD" % wt)
     if rc != 0:
         sys.exit("worktree: " + o)
-    meta = {"id": "%s-%s" % (prop, which), "property": prop, "repo_head": sh("git -C /repo rev-parse --short HEAD")[1].strip(),
+    meta = {"id": "%s%s-%s" % (prop, suffix, which), "property": prop, "repo_head": sh("git -C /repo rev-parse --short HEAD")[1].strip(),
             "ran": []}
     try:
         src = open(demo).read()
